@@ -141,6 +141,7 @@ void WgCase(Ctx& ctx, bool timed_focus) {
     auto co_inline = [&](Waiter* w) -> yaclib::Future<> {
       co_await wg;
       w->done_seen = done_begun.load(kRlx);
+      VF_R(side_plain, "C04,C16");
       w->side_seen = side_plain;
       w->at = Stamp();
       w->released.fetch_add(1, kRlx);
@@ -150,6 +151,7 @@ void WgCase(Ctx& ctx, bool timed_focus) {
       co_await yaclib::On(own);
       co_await wg.AwaitSticky();
       w->done_seen = done_begun.load(kRlx);
+      VF_R(side_plain, "C04,C16");
       w->side_seen = side_plain;
       w->tag = CurTag();
       w->at = Stamp();
@@ -159,6 +161,7 @@ void WgCase(Ctx& ctx, bool timed_focus) {
     auto co_on = [&](Waiter* w) -> yaclib::Future<> {
       co_await wg.AwaitOn(other);
       w->done_seen = done_begun.load(kRlx);
+      VF_R(side_plain, "C04,C16");
       w->side_seen = side_plain;
       w->tag = CurTag();
       w->at = Stamp();
@@ -298,6 +301,7 @@ void WgCase(Ctx& ctx, bool timed_focus) {
         }
         if (w.timed_result) {
           w.done_seen = done_begun.load(kRlx);
+          VF_R(side_plain, "C04,C16");
           w.side_seen = side_plain;
         }
         w.at = Stamp();
@@ -306,6 +310,7 @@ void WgCase(Ctx& ctx, bool timed_focus) {
     }
     // release the guard
     SleepNs(guard_sleep);
+    VF_W(side_plain, "C04,C16");
     side_plain = 42;
     done_begun.fetch_add(1, kRlx);
     wg.Done();
